@@ -264,6 +264,7 @@ class Acq:
         self.mon = []             # frames seen by the monitor, in consumption order
         self.start_ok = None
         self.returned = False
+        self.mon_reg_at_start = False   # the monitor reader of this stream was registered before this acquisition started
 
 
 def oracle(prog, lines, meta):
@@ -290,6 +291,7 @@ def oracle(prog, lines, meta):
     last_api = None
     in_call = None
     fresh_tag = {}
+    mon_registered = {0: False, 1: False}
 
     def dev_event(key, ev, line):
         d = dev.setdefault(key, dict(open=False, closed=False, running=False, starts=0, stops=0))
@@ -338,6 +340,7 @@ def oracle(prog, lines, meta):
                 cur[s] = Acq(s, dict(cfg[s]), cams.get(camidx, dict(w=4, h=3, t=0)))
                 cur[s].camidx = camidx
                 cur[s].stoidx = "AB".index(cfg[s]["sto"])
+                cur[s].mon_reg_at_start = mon_registered[s]
                 hist[s].append(cur[s])
             in_call = "start"
         elif l.startswith("A start ->"):
@@ -406,6 +409,8 @@ def oracle(prog, lines, meta):
                     acq.sto.extend(parse_frames(l))
                 elif ev == "stop":
                     acq.sto_stopped = True
+        elif l.startswith("R s") and len(w) > 4 and w[2] == "sink.in" and w[3] == "mon" and w[4] == "rmap":
+            mon_registered[int(w[1][1])] = True
         elif l.startswith("M s"):
             s = int(w[1][1])
             m = mon_state.setdefault(s, dict(expect=None, held=[], acq=None))
@@ -477,15 +482,23 @@ def oracle(prog, lines, meta):
             # C06: monitor sees consecutive ids, right pixels, nothing from an earlier acquisition
             if not avg:
                 prev = None
+                fresh_seen = False
                 for f in a.mon:
                     if a.tag is not None:
                         want = px_hash_c(a.camidx, a.tag, f["hw"], cam["w"], cam["h"], cam["t"])
                         if f["px"] != want:
                             stale = any(px_hash_c(a.camidx, t, f["hw"], cam["w"], cam["h"], cam["t"]) == f["px"] for t in range(1, a.tag))
-                            add("C06", "monitor-stale" if stale else "monitor-pixels", "stream %d acquisition %d: the monitor was handed frame %d with %s pixel bytes"
-                                % (s, ai, f["id"], "an earlier acquisition's" if stale else "wrong"))
+                            if not a.mon_reg_at_start and not fresh_seen:
+                                # the reader registered for the first time during this acquisition and these frames come before
+                                # any frame of this acquisition: it joined the ring at offset 0 of the current lap (known finding)
+                                add("C06", "monitor-stale-first-use", "stream %d acquisition %d: a monitor reader that registered for the first time in this "
+                                    "(not the first) acquisition was handed frame %d of an earlier acquisition" % (s, ai, f["id"]))
+                            else:
+                                add("C06", "monitor-stale" if stale else "monitor-pixels", "stream %d acquisition %d: the monitor was handed frame %d with %s pixel bytes"
+                                    % (s, ai, f["id"], "an earlier acquisition's" if stale else "wrong"))
                             prev = None
                             continue
+                    fresh_seen = True
                     if prev is not None and f["id"] != prev + 1:
                         add("C06", "monitor-gap", "stream %d acquisition %d: the monitor saw frame %d after frame %d" % (s, ai, f["id"], prev))
                     prev = f["id"]
@@ -753,3 +766,70 @@ def model_run(orac, traces):
         elif w[1] == "STATE" and w[0] in res:
             res[w[0]][3] = w[2] if len(w) > 2 else ""
     return res
+
+
+# ----------------------------------------------------------------------------- event lines -> Coq terms (Examples in the property files)
+def _frm_coq(s):
+    t, i, h, sh = s.split(":")
+    return "(mkF %s %s %s %s)" % (t, i, h, sh)
+
+
+def event_to_coq(line):
+    w = line.split()
+    B = {"ok": "true", "fail": "false", "err": "false", "drop": "false", "1": "true", "0": "false"}
+    if w[0] == "G":
+        g = w[1]
+        if g == "configure":
+            return "EvG (GConfigure %s %s %s %s)" % (B[w[2]], B[w[3]], w[4], w[5])
+        if g == "startret":
+            return "EvG (GStartRet %s)" % B[w[2]]
+        if g == "state":
+            return "EvG (GState %s)" % {"await": "HAwait", "armed": "HArmed", "running": "HRunning"}[w[2]]
+        return "EvG %s" % {"startcall": "GStartCall", "stopcall": "GStopCall", "stopret": "GStopRet", "abortcall": "GAbortCall",
+                           "abortret": "GAbortRet", "shutdowncall": "GShutdownCall", "shutdownret": "GShutdownRet"}[g]
+    i = "true" if w[1] == "1" else "false"
+    a = {"cli": "ACli", "src": "ASrc", "sink": "ASink", "filt": "AFilt"}[w[2]]
+    op, r = w[3], w[4:]
+    RD = {"sink": "RdSink", "mon": "RdMon"}
+    RO = {"src": "RSrc", "sink": "RSink", "filt": "RFilt"}
+    if op in ("opencam", "closecam", "setcam", "opensto", "closesto", "setsto", "camstop", "stostop", "trigger"):
+        e = "%s %s" % ({"opencam": "DOpenCam", "closecam": "DCloseCam", "setcam": "DSetCam", "opensto": "DOpenSto", "closesto": "DCloseSto",
+                        "setsto": "DSetSto", "camstop": "DCamStop", "stostop": "DStoStop", "trigger": "DTrigger"}[op], r[0])
+    elif op == "stostart":
+        e = "DStoStart %s %s" % (r[0], B[r[1]])
+    elif op == "camstart":
+        e = "DCamStart %s %s %s" % (r[0], B[r[1]], r[2])
+    elif op == "getframe":
+        e = "DGetFrame %s (Some (%s, %s, %s))" % (r[0], r[2], r[3], r[4]) if r[1] == "ok" else "DGetFrame %s None" % r[0]
+    elif op == "append":
+        e = "DAppend %s %s [%s]" % (r[0], B[r[1]], "; ".join(_frm_coq(x) for x in r[2:]))
+    elif op == "wmapenter":
+        e = "WMapEnter"
+    elif op == "wmap":
+        e = "WMap %s" % B[r[0]]
+    elif op == "commit":
+        e = "Commit %s %s" % (B[r[0]], _frm_coq(r[1]))
+    elif op == "accept":
+        e = "Accept %s" % B[r[0]]
+    elif op == "rmapenter":
+        e = "RMapEnter %s" % RD[r[0]]
+    elif op == "rmap":
+        e = "RMap %s [%s]" % (RD[r[0]], "; ".join(_frm_coq(x) for x in r[1:]))
+    elif op == "runmap":
+        e = "RUnmap %s %s" % (RD[r[0]], r[1])
+    elif op in ("cbstopfilter", "cbstopsink", "cbstopsource"):
+        e = {"cbstopfilter": "CbStopFilter", "cbstopsink": "CbStopSink", "cbstopsource": "CbStopSource"}[op]
+    elif op in ("spawn", "exit", "joined"):
+        e = "%s %s" % ({"spawn": "Spawn", "exit": "Exit", "joined": "Joined"}[op], RO[r[0]])
+    elif op == "monrefused":
+        e = "MonMapRefused"
+    elif op == "monret":
+        e = "MonMapRet %s" % B[r[0]]
+    else:
+        raise ValueError("event " + line)
+    return "EvS %s %s (%s)" % (i, a, e)
+
+
+def events_to_coq(name, evs):
+    body = ";\n  ".join(event_to_coq(e) for e in evs)
+    return "Definition %s : list event := [\n  %s\n]%%N." % (name, body)
